@@ -117,6 +117,7 @@ theorem iface_okChild (H : Heap) (k : Nat) (child : HVal) (hok : child.okAt H k)
     | stk f c xs => simp [iface] at hi
     | cnd f c kw op ex => simp [iface] at hi
     | anys xs => simp [iface] at hi
+    | opv o => simp [iface] at hi
   | stk f id =>
     cases f <;> simp [iface] at hi
     cases hs : stackAt H id with
